@@ -1,7 +1,6 @@
 import warnings
 
 import numpy as np
-import statsmodels.api as sm
 
 from leaspy.io.data import Dataset
 from leaspy.io.outputs.individual_parameters import IndividualParameters
@@ -69,7 +68,8 @@ class LMEPersonalizeAlgorithm(PersonalizeAlgorithm[LMEModel, IndividualParameter
             "ages_std"
         ]
 
-        X = sm.add_constant(ages_norm, prepend=True, has_constant="add")
+        # design matrix [1, normalized age] (built directly so that a subject without any observation is supported)
+        X = np.column_stack([np.ones(len(ages_norm)), ages_norm])
         residuals = values - X @ model.parameters["fe_params"]
 
         cov_re_unscaled_inv = model.parameters["cov_re_unscaled_inv"]
